@@ -95,18 +95,22 @@ pub proof fn lemma_keep_ext(s: Seq<RetainedMessage>, f: spec_fn(RetainedMessage)
 }
 
 // The case analysis of a read inside one segment, on the abstract view: `d` = what is on disk, `b` = what is buffered,
-// together contiguous from `first`; the split point is the first buffered offset.
+// together contiguous from `first`; the split point is the first buffered offset `fbo`.
+pub open spec fn max_int(a: int, b: int) -> int { if a >= b { a } else { b } }
 pub proof fn lemma_tier_split(d: Seq<RetainedMessage>, b: Seq<RetainedMessage>, first: int, lo: int, hi: int)
     requires contig(d + b, first), b.len() > 0,
     ensures
-        slice_of(d + b, lo, hi) == slice_of(d, lo, hi) + slice_of(b, lo, hi),
         b[0].offset == first + d.len(),
-        lo >= b[0].offset ==> slice_of(d, lo, hi) == Seq::<RetainedMessage>::empty(),
-        hi < b[0].offset ==> slice_of(b, lo, hi) == Seq::<RetainedMessage>::empty(),
-        hi >= b[0].offset - 1 ==> slice_of(d, lo, b[0].offset - 1) == slice_of(d, lo, hi),
-        slice_of(b, if lo >= b[0].offset { lo } else { b[0].offset as int }, hi) == slice_of(b, lo, hi),
+        // buffer only
+        lo >= b[0].offset ==> slice_of(d + b, lo, hi) == slice_of(b, lo, hi),
+        // disk only
+        hi < b[0].offset ==> slice_of(d + b, lo, hi) == slice_of(d, lo, hi),
+        // spanning the boundary: the disk part up to fbo-1, then the buffer part from max(lo, fbo)
+        (lo < b[0].offset <= hi) ==> slice_of(d + b, lo, hi) == slice_of(d, lo, b[0].offset - 1) + slice_of(b, max_int(lo, b[0].offset as int), hi),
+        lo >= b[0].offset ==> slice_of(d + b, lo, hi) == slice_of(b, max_int(lo, b[0].offset as int), hi),
 {
     let s = d + b;
+    let e = Seq::<RetainedMessage>::empty();
     lemma_keep_add(d, b, off_in(lo, hi));
     assert(forall|i: int| 0 <= i < d.len() ==> d[i] == s[i]);
     assert(forall|i: int| 0 <= i < b.len() ==> b[i] == s[d.len() + i]);
@@ -114,10 +118,10 @@ pub proof fn lemma_tier_split(d: Seq<RetainedMessage>, b: Seq<RetainedMessage>, 
     let fbo = b[0].offset as int;
     assert(forall|i: int| 0 <= i < d.len() ==> (#[trigger] d[i]).offset < fbo);
     assert(forall|i: int| 0 <= i < b.len() ==> (#[trigger] b[i]).offset >= fbo);
-    if lo >= fbo { lemma_keep_none(d, off_in(lo, hi)); }
-    if hi < fbo { lemma_keep_none(b, off_in(lo, hi)); }
+    if lo >= fbo { lemma_keep_none(d, off_in(lo, hi)); assert(e + slice_of(b, lo, hi) =~= slice_of(b, lo, hi)); }
+    if hi < fbo { lemma_keep_none(b, off_in(lo, hi)); assert(slice_of(d, lo, hi) + e =~= slice_of(d, lo, hi)); }
     if hi >= fbo - 1 { lemma_keep_ext(d, off_in(lo, fbo - 1), off_in(lo, hi)); }
-    lemma_keep_ext(b, off_in(if lo >= fbo { lo } else { fbo }, hi), off_in(lo, hi));
+    lemma_keep_ext(b, off_in(max_int(lo, fbo), hi), off_in(lo, hi));
 }
 
 // ---- R8 schemas (A-std) ------------------------------------------------------------------------------------------
